@@ -81,7 +81,14 @@ AdmissibleDest(s, a, p) ==
   /\ \A v \in Vehicles : p[v] \in {Depot, Wants(s, a, v)}
   /\ \A c \in Customers : Contenders(s, a, c) # {} =>
         Cardinality({ v \in Contenders(s, a, c) : p[v] = c }) = 1
-Dests(s, a) == { p \in [Vehicles -> Nodes] : AdmissibleDest(s, a, p) }
+DestsByDefinition(s, a) == { p \in [Vehicles -> Nodes] : AdmissibleDest(s, a, p) }
+\* the same set, enumerated constructively (sets L of vehicles that lose a conflict); MC checks the equality
+WantsVec(s, a) == [v \in Vehicles |-> Wants(s, a, v)]
+Dests(s, a) ==
+  LET w == WantsVec(s, a)
+      losers == { L \in SUBSET { v \in Vehicles : w[v] # Depot } :
+                    \A c \in Customers : LET cs == { v \in Vehicles : w[v] = c } IN cs # {} => Cardinality(cs \ L) = 1 }
+  IN { [v \in Vehicles |-> IF v \in L THEN Depot ELSE w[v]] : L \in losers }
 FirstWins(s, a) ==      \* the resolution the code implements (read from the code, not documented)
   [v \in Vehicles |-> IF Wants(s, a, v) # Depot /\ \A w \in Contenders(s, a, Wants(s, a, v)) : v <= w
                       THEN Wants(s, a, v) ELSE Depot]
